@@ -385,6 +385,8 @@ pub fn dummy_cfg() -> RunCfg {
 pub struct ProbeDisk {
     pub buf: [u8; 512],
     pub pos: u64,
+    /// what the device reports as its size (seek to the end); 0 = it cannot tell
+    pub len: u64,
 }
 
 impl IoBase for ProbeDisk {
@@ -421,6 +423,11 @@ impl Seek for ProbeDisk {
         let t = match pos {
             SeekFrom::Start(x) => x,
             SeekFrom::Current(d) => (self.pos as i64 + d) as u64,
+            SeekFrom::End(0) if self.len > 0 => {
+                // size query: allowed, nothing can be read or written there
+                self.pos = self.len;
+                return Ok(self.len);
+            }
             SeekFrom::End(_) => return Err(probe_err()),
         };
         if t > 512 {
@@ -439,8 +446,28 @@ pub enum Probe {
 
 /// boot sector the library would write for (options, total_sectors)
 pub fn probe(q: &FmtReq) -> Probe {
-    let mut d = ProbeDisk { buf: [0u8; 512], pos: 0 };
-    match fatfs::format_volume(&mut d, options(q)) {
+    probe_dev(q, 0)
+}
+
+/// `dev_sectors` > 0: the size is not given in the options, the device reports `dev_sectors` whole sectors (plus a
+/// partial one); more than 2^32-1 sectors cannot be described by a FAT boot sector and must be refused
+pub fn probe_dev(q: &FmtReq, dev_sectors: u64) -> Probe {
+    let len = if dev_sectors > 0 { dev_sectors * u64::from(q.bps) + (dev_sectors * 7919) % u64::from(q.bps) } else { 0 };
+    let mut d = ProbeDisk { buf: [0u8; 512], pos: 0, len };
+    let mut q2 = q.clone();
+    if dev_sectors > 0 {
+        q2.explicit_total = false;
+        q2.total_sectors = dev_sectors.min(u64::from(u32::MAX)) as u32;
+    }
+    let q = &q2;
+    let res = fatfs::format_volume(&mut d, options(q));
+    if dev_sectors > u64::from(u32::MAX) {
+        return match res {
+            Err(fatfs::Error::InvalidInput) => Probe::Rejected,
+            other => Probe::Bad(format!("device of {} sectors (more than 2^32-1): {:?}", dev_sectors, other.err())),
+        };
+    }
+    match res {
         Err(fatfs::Error::InvalidInput) => Probe::Rejected,
         Err(fatfs::Error::Io(_)) => {
             let img = Store::from_bytes(&d.buf);
@@ -479,6 +506,30 @@ pub fn sweep_default(lo: u64, hi: u64) -> RunOutcome {
             Guarded::Panic(m) => Probe::Bad(format!("panic: {}", m)),
             Guarded::Hang => Probe::Bad("hang".into()),
         };
+        // the same size learnt from the device instead of the options (a sixteenth of the sizes, and both ends of the range)
+        if t % 16 == 5 || t < 64 || t + 64 > u64::from(u32::MAX) {
+            o.evaluations += 1;
+            let r2 = match guarded(|| probe_dev(&q, t)) {
+                Guarded::Done(p) => p,
+                Guarded::Panic(m) => Probe::Bad(format!("panic: {}", m)),
+                Guarded::Hang => Probe::Bad("hang".into()),
+            };
+            let same = match (&r, &r2) {
+                (Probe::Rejected, Probe::Rejected) => true,
+                (Probe::Sector(a), Probe::Sector(b)) => (a.fat_bits, a.spc, a.reserved, a.n_clusters, a.total_sectors) == (b.fat_bits, b.spc, b.reserved, b.n_clusters, b.total_sectors),
+                _ => false,
+            };
+            if !same {
+                let show = |p: &Probe| match p {
+                    Probe::Rejected => "rejected".to_string(),
+                    Probe::Sector(g) => format!("FAT{} spc={} clusters={} total={}", g.fat_bits, g.spc, g.n_clusters, g.total_sectors),
+                    Probe::Bad(e) => format!("invalid: {}", e),
+                };
+                let v = viol("C06", "device-size-differs-from-explicit-size", format!("{} sectors of 512 bytes, default options: size in the options -> {}; size reported by the device -> {}", t, show(&r), show(&r2)), 0);
+                o.violation = Some((v.clone(), Replay { property: "C06".into(), kind: "c06-sweep".into(), seed: t, cfg: dummy_cfg(), steps: vec![], violation: Some(v) }));
+                return o;
+            }
+        }
         match r {
             Probe::Rejected => {
                 if t >= 42 {
@@ -599,6 +650,7 @@ pub fn batches(tier: &str, seed: u64) -> (Vec<Batch<'static>>, bool) {
     v.push(Batch { name: "full formats of swarm-drawn requests (refdec + mount)".into(), runs: n_full, f: Box::new(move |i| full_format(crate::rng::run_seed(seed, 21, i))) });
     let n_probe = if quick { 8000u64 } else { 100_000 };
     v.push(Batch { name: "boot-sector probes over the option space (failing device)".into(), runs: n_probe, f: Box::new(move |i| probe_random(crate::rng::run_seed(seed, 22, i))) });
+    v.push(Batch { name: "default options on devices of more than 2^32-1 sectors (must be refused)".into(), runs: 16, f: Box::new(oversize) });
     v.push(Batch { name: "default options, full format at boundary sizes".into(), runs: BOUNDARY_SIZES.len() as u64, f: Box::new(|i| full_default(BOUNDARY_SIZES[i as usize])) });
     if quick {
         // dense prefix + strided sample of the 32-bit range
@@ -611,6 +663,7 @@ pub fn batches(tier: &str, seed: u64) -> (Vec<Batch<'static>>, bool) {
                 sweep_default(base.max(1), (base + 16384).min(1 << 32))
             }),
         });
+        v.push(Batch { name: "default options, the last 4096 sizes below 2^32 (probe; size from the options and from the device)".into(), runs: 1, f: Box::new(|_| sweep_default((1u64 << 32) - 4096, 1u64 << 32)) });
         (v, false)
     } else {
         // all 2^32 - 1 sizes
@@ -624,8 +677,31 @@ pub fn batches(tier: &str, seed: u64) -> (Vec<Batch<'static>>, bool) {
     }
 }
 
+/// devices too large for any FAT boot sector must be refused, not truncated
+pub fn oversize(i: u64) -> RunOutcome {
+    let mut o = RunOutcome::empty();
+    o.evaluations = 0;
+    for d in [0u64, 1, 2, 511, 512, 1 << 20, 1 << 31, (1 << 32) - 1, 1 << 32, 1 << 40] {
+        let secs = (1u64 << 32) + d + i;
+        o.evaluations += 1;
+        o.distinct.push(crate::rng::hash_bytes(secs, b"oversize"));
+        let r = match guarded(|| probe_dev(&default_req(0), secs)) {
+            Guarded::Done(p) => p,
+            Guarded::Panic(m) => Probe::Bad(format!("panic: {}", m)),
+            Guarded::Hang => Probe::Bad("hang".into()),
+        };
+        if let Probe::Bad(e) = r {
+            let v = viol("C06", "oversize-device-not-refused", e, 0);
+            o.violation = Some((v.clone(), Replay { property: "C06".into(), kind: "c06-oversize".into(), seed: i, cfg: dummy_cfg(), steps: vec![], violation: Some(v) }));
+            return o;
+        }
+    }
+    o
+}
+
 pub fn replay(kind: &str, seed: u64) -> Option<RunOutcome> {
     match kind {
+        "c06-oversize" => Some(oversize(seed)),
         "c06-format" => Some(full_format(seed)),
         "c06-sweep" => Some(sweep_default(seed, seed + 1)),
         "c06-probe-random" => Some(probe_random(seed)),
